@@ -6,7 +6,7 @@ import ast
 from .core import rule
 from .model import AnalysisError, dotted, norm, walk_own
 from .paths import (Parents, guards_of, flat_guards, flatten_guard, np_atom, strip_not, cmp_atom, swap_cmp, isinstance_atom,
-                    enumerate_paths, decision_table, resolve_local, always_exits, eval3, handlers_of, inline_call)
+                    enumerate_paths, decision_table, resolve_local, always_exits, eval3, handlers_of, inline_call, ret_expr)
 from .pat import has, find, first, name_of, match, _parse
 from .rules_t import validator_classes, class_keywords, kwonly, own_init, element_family
 
@@ -847,7 +847,8 @@ def g5(ctx, res):
     pcall = ctx.func("Properties.__call__")
     res.check(has("self[MV_k](MV_v)", pcall), pcall, "self[key](sub_value)", reason="each member is validated by its resolved property")
     icall = ctx.func("Items.__call__")
-    res.check(has("self[MV_i](MV_v, MV__)", icall), icall, "self[index](sub_value, ...)", reason="each item is validated by its resolved element")
+    res.judge(True if has("self[MV_i](MV_v, MV__)", V(ctx, icall).body) else None, icall, "self[index](sub_value, ...)",
+              reason="each item is validated by its resolved element")
     pr = ctx.func("_Property.__call__")
     res.check(has(f"return self.element({pr.params[1].name}, self)", pr), pr, "return self.element(value, self)",
               reason="a property validates with its element")
@@ -1254,7 +1255,10 @@ def g10(ctx, res):
     for p in init.params[1:]:
         res.check(has(f"self.{p.name} == {other}.{p.name}", peq), peq, f"self.{p.name} == other.{p.name}",
                   reason="property equality covers every constructor field")
-    res.check(has(f"if not isinstance({other}, _Property):\n    return False", peq), peq, "isinstance(other, _Property) guard",
+    guard_ok = has(f"if not isinstance({other}, _Property):\n    return False", peq) or any(
+        isinstance(n, ast.Return) and isinstance(n.value, ast.BoolOp) and isinstance(n.value.op, ast.And)
+        and norm(n.value.values[0]) == f"isinstance({other}, _Property)" for n in walk_own(peq.body))
+    res.judge(True if guard_ok else None, peq, "isinstance(other, _Property) guard",
               reason="a property only equals a property")
 
 
@@ -1345,13 +1349,16 @@ def g11(ctx, res):
 def g12(ctx, res):
     ic = ctx.func("Items.__call__")
     v, prop = ic.params[1].name, ic.params[2].name
-    ok = False
-    for n in walk_own(ic.body):
-        if isinstance(n, ast.Return) and isinstance(n.value, ast.ListComp) and len(n.value.generators) == 1:
-            g = n.value.generators[0]
-            ok = not g.ifs and norm(g.iter) in (f"enumerate({v})",) and isinstance(g.target, ast.Tuple) and \
-                has(f"self[{norm(g.target.elts[0])}]({norm(g.target.elts[1])}, MV__)", n.value.elt)
-    res.check(ok, ic, "[self[index](sub_value, ...) for index, sub_value in enumerate(value)]",
+    verdict = None
+    for b in builders(V(ctx, ic).body):
+        if b.kind != "list" or not has("self[MV_i](MV_x, MV__)", b.elt):
+            continue
+        if norm(b.iter) == f"enumerate({v})" and isinstance(b.target, ast.Tuple) and not b.guards \
+                and has(f"self[{norm(b.target.elts[0])}]({norm(b.target.elts[1])}, MV__)", b.elt):
+            verdict = True
+        else:
+            verdict = False
+    res.judge(verdict, ic, "[self[index](sub_value, ...) for index, sub_value in enumerate(value)]",
               reason="every item, in order, no filter: arrays keep their length and order")
     pc = ctx.func("Properties.__call__")
     v = pc.params[1].name
@@ -1396,7 +1403,7 @@ def g12(ctx, res):
             continue
         v = m.params[1].name
         if c.name == "Number":
-            rets = [norm(x.value) for x in walk_own(m.body) if isinstance(x, ast.Return)]
+            rets = sorted({norm(ret_expr(p)) for p in enumerate_paths(m.body) if p.exit == "return" and ret_expr(p) is not None})
             res.check(set(rets) <= {f"float({v})", v} and f"float({v})" in rets, m, "return float(value)",
                       detail={"returns": rets}, reason="the only conversion: an accepted integer comes back as the equal float")
         else:
